@@ -527,6 +527,8 @@ func c09RefreshFor(e time.Duration) time.Duration {
 	return r
 }
 
+var c09RedisModes = []string{"standalone", "cluster", "sentinel"}
+
 func TestVerif_C09(t *testing.T) {
 	run := vfNewRun(t, "C09", "exploration")
 	run.SetRule("sessions are issued at an imposed time T (pkg/clock mock around the issuing request only) on a one-second grid around every threshold " +
@@ -550,6 +552,7 @@ func TestVerif_C09(t *testing.T) {
 		expires = []time.Duration{5 * time.Second, 30 * time.Second, 90 * time.Second, 10 * time.Minute, time.Hour, 24 * time.Hour, 168 * time.Hour}
 	}
 	var insts []*c09Inst
+	redisInst := 0
 	for _, store := range []string{"cookie", "redis"} {
 		for _, e := range expires {
 			for _, r := range []time.Duration{0, c09RefreshFor(e)} {
@@ -557,7 +560,12 @@ func TestVerif_C09(t *testing.T) {
 				// nonce claim, which the nonce check would refuse right after every refresh (not this property's concern)
 				flags := []string{"--session-store-type=" + store, "--cookie-expire=" + c09Dur(e), "--cookie-refresh=" + c09Dur(r), "--insecure-oidc-skip-nonce=true"}
 				if store == "redis" {
-					flags = append(flags, "--redis-connection-url="+w.RedisURL())
+					// the server-side store is reached through the standalone, the Cluster and the Sentinel client in turn
+					// (different client builders and, for the cluster, a different wrapper type in pkg/sessions/redis)
+					mode := c09RedisModes[redisInst%len(c09RedisModes)]
+					redisInst++
+					flags = append(flags, w.RedisModeFlags(mode)...)
+					run.Count("redis_instances_client_"+mode, 1)
 				}
 				flags = append(flags, "--htpasswd-file="+ht)
 				p, err := w.NewProxy(flags...)
@@ -586,7 +594,10 @@ func TestVerif_C09(t *testing.T) {
 			}
 			flags := []string{"--session-store-type=" + store, "--cookie-expire=" + c09Dur(e), "--cookie-refresh=" + c09Dur(r), "--insecure-oidc-skip-nonce=true"}
 			if store == "redis" {
-				flags = append(flags, "--redis-connection-url="+w.RedisURL())
+				mode := c09RedisModes[redisInst%len(c09RedisModes)]
+				redisInst++
+				flags = append(flags, w.RedisModeFlags(mode)...)
+				run.Count("redis_instances_client_"+mode, 1)
 			}
 			flags = append(flags, "--htpasswd-file="+ht)
 			p, err := w.NewProxy(flags...)
